@@ -313,7 +313,7 @@ def read_script(f, ch, frames, filehex, route, seekable=True, mode="r"):
     lines.append("open h1 s1 %s%s route=%s ext=%s" % (mode, fmt, route, ext_of(f)))
     lines.append("getstr h1 1")
     a = max(1, frames // 4)
-    even = f.codec == 0x21
+    even = False      # (was: OKI/VOX) KF-VOX-ODD is repaired: odd item counts on every route
     if even:
         a = max(2, a - a % 2)
     lines.append("r h1 s16 f %d" % a)
@@ -398,7 +398,7 @@ def stream_public(ctx, consts, fmts, alive):
         if f.codec == 0x20 and f.major in (0x01, 0x13):
             frames = rng.choice([320, 640, 960, 1280])   # WAV/GSM: odd and even numbers of 65-byte blocks (the pad byte of an odd count was an extra block before the repair of KF-WAV-GSM-PAD)
         if f.codec == 0x21:
-            frames = rng.choice([4, 64, 400])       # OKI/VOX: odd item counts overrun the caller's buffer (KF-VOX-ODD, C05) on every route alike
+            frames = rng.choice([5, 64, 401])       # OKI/VOX: odd totals too (two samples per byte, the odd one is held for the next call / close: KF-VOX-ODD repaired)
         vals = gen_values(rng, frames * ch)
         title = [0x54, 0x31 + n % 9] if f.major in (0x01, 0x13, 0x02, 0x18, 0x22) and rng.random() < 0.5 else None
         j = dict(f=f, ch=ch, frames=frames, vals=vals, title=title, name="%s-%dch-%d" % (f.name, ch, frames))
